@@ -7,7 +7,13 @@ CFG = {
                   "and the nomination proof of the agent's role, USE-CANDIDATE requests always carry ICE-CONTROLLING, a plain "
                   "USE-CANDIDATE never moves the selection to a lower-priority pair (agents with the priority check), a lite "
                   "controlled agent selects on an authenticated nomination without a check of its own and never emits a Binding "
-                  "request. The switch rule (shouldSwitchSelectedPair), needsToCheckPriorityOnNominated and "
+                  "request. A check of its own (after the fix of F17: a pending transaction records the local address its request "
+                  "left from and a response is accepted only on that address): the only step that validates a pair is an "
+                  "authenticated success response whose consumed pending entry was sent from the pair's local to the pair's "
+                  "remote address (C03_validated_by_own_check, any state, any event), and along every history from a fresh "
+                  "agent every pair with a matched response had a Binding request emitted from its own local to its own remote "
+                  "address (C03_validated_by_own_check_inv; the log is the list of request datagrams in the step outputs, no "
+                  "ghost field). The switch rule (shouldSwitchSelectedPair), needsToCheckPriorityOnNominated and "
                   "shouldAcceptNomination are REGENERATED from selection.go/agent.go on every run and proved equal, for all "
                   "arguments, to the model's decisions. The model itself is tied to the code by the differential correspondence "
                   "of component `agent` (real agent under testing/synctest vs model, op by op).",
